@@ -106,6 +106,9 @@ func StartProxy(cfgYAML string, files map[string]string, o ProxyOpts) (*Proxy, e
 	if lvl == "" {
 		lvl = "info"
 	}
+	if v := os.Getenv("VERIF_PROXY_LOGLVL"); v != "" {
+		lvl = v
+	}
 	args := []string{"router", "-c", cfgPath, "--log-lvl", lvl}
 	if o.GoMaxProcs > 0 {
 		args = append(args, "--gomaxprocs", fmt.Sprint(o.GoMaxProcs))
@@ -190,6 +193,20 @@ func (p *Proxy) Kill() {
 func (p *Proxy) Cleanup() {
 	p.Kill()
 	os.RemoveAll(p.Dir)
+}
+
+// LogLines returns the log lines containing substr (at most max).
+func (p *Proxy) LogLines(substr string, max int) string {
+	var out []string
+	for _, l := range strings.Split(p.Stderr(), "\n") {
+		if strings.Contains(l, substr) {
+			out = append(out, l)
+			if len(out) >= max {
+				break
+			}
+		}
+	}
+	return strings.Join(out, "\n")
 }
 
 // Crashed reports evidence of a crash in the process output.
